@@ -104,7 +104,9 @@ pub fn to_lossy_bytes(input: &str) -> Cow<[u8]> {
         // allowing unwrap because we should never get to a position where we cannot have one
         let (cow, _, error) = current_encoding.encode(char_as_bytes);
 
-        if !error {
+        // a non-ascii character must never be folded onto an ascii byte (Shift_JIS maps U+00A5 to
+        // 0x5C and U+203E to 0x7E, which decode as a backslash and a tilde)
+        if !error && !cow.is_ascii() {
             output.extend_from_slice(&cow);
             continue;
         }
@@ -123,7 +125,7 @@ pub fn to_lossy_bytes(input: &str) -> Cow<[u8]> {
 
             // try to encode the current character
             let (cow, _, error) = candidate_encoding.encode(char_as_bytes);
-            if error {
+            if error || cow.is_ascii() {
                 // this codepage doesnt match, try the next one
                 continue;
             }
